@@ -951,9 +951,19 @@ func flameRegisterArgs(f *flamego.Flame, viaRoutes bool, method string, extra []
 		rt = f.Routes(txt, method, append(args, h)...)
 		return
 	}
+	if method == getWithAutoHead {
+		// Get() while AutoHead is on: a GET registration and a HEAD registration of the same route, in that order
+		f.AutoHead(true)
+		defer f.AutoHead(false)
+		rt = f.Get(txt, h)
+		return
+	}
 	rt = f.Route(method, txt, []flamego.Handler{h})
 	return
 }
+
+// getWithAutoHead is the method token of a registration made with Get() while AutoHead is on.
+const getWithAutoHead = "GET+AUTOHEAD"
 
 // reqViews: what the route handler registered by flameRegister* saw of the request it answered, keyed by the
 // caller's hit pointer. The framework routes a request; it does not write it: the handler sees the method, the
